@@ -252,8 +252,8 @@ func (e *env) ctlOps(rounds int) {
 					strings.TrimPrefix(vulnLine(cm.name, p, a, nil), "vuln ")
 				r.Op(line, got, true)
 				r.Count("ctl:" + cm.name + ":hit=" + b2s(hit) + ":" + got)
-				// the statement for the authoritative matchers: reported iff lower <= v < upper
-				if auth && v.Range != nil && v.Range.Upper.Kind == "semver" && rec.Package.NormalizedVersion.Kind == "semver" {
+				// the statement for gobin / nodejs (whose Vulnerable is a no-op): reported iff lower <= v < upper
+				if (cm.name == "gobin" || cm.name == "nodejs") && v.Range != nil && v.Range.Upper.Kind == "semver" && rec.Package.NormalizedVersion.Kind == "semver" {
 					want := lo.rank <= pe.rank && pe.rank < up.rank
 					if got != fmt.Sprint(want) {
 						r.Fail("", fmt.Sprintf("%s: version %v, range [%v,%v): reported=%s, expected %v", cm.name, pe.v.V, lo.v.V, up.v.V, got, want))
